@@ -61,7 +61,8 @@ def expand(case):
 def x_prog(ctx, case):
     program = expand(case)
     log = recorders.Log()
-    run = programs.execute(program, lambda: recorders.ExtRecorder(log))
+    runner = programs.runner_factory_for(case.get("runner"))
+    run = programs.execute(program, lambda: recorders.ExtRecorder(log), runner_factory=runner)
     env, the_case = run.env, run.case
     names = [n for n in log.names() if n in recorders.OUTCOMES]
     raised = list(env.raised)
@@ -124,7 +125,8 @@ def x_prog(ctx, case):
     ctx.check(len(calls) <= 1, "handlers.at-most-one-called", detail)
     # (5) a real TestResult fed by the same program is unsuccessful
     real = __import__("testtools").TestResult()
-    run2 = programs.execute(program, lambda: real)
+    run2 = programs.execute(program, lambda: real,
+                            runner_factory=programs.runner_factory_for(case.get("runner")))
     if failing or "addUnexpectedSuccess" in mapped and not [m for m in mapped if m != "addUnexpectedSuccess"]:
         mech = "user-handler-benign-over-failure" if (
             failing and outcome in ("addSkip", "addExpectedFailure") and any(
@@ -223,4 +225,10 @@ def run(ctx):
         if ctx.out_of_time():
             break
         prog = progen.random_program(rng, features=FEATURES, p_raise=0.45, kinds=ALL_KINDS)
-        ctx.execute("prog", {"prog": prog})
+        case = {"prog": prog}
+        r = rng.random()
+        if r < 0.15:
+            case["runner"] = "sync"
+        elif r < 0.3 and not prog.get("decor"):
+            case["runner"] = "async"
+        ctx.execute("prog", case)
